@@ -413,6 +413,8 @@ func (te *tagEval) run(fr *frame, b *ssa.BasicBlock, pred *ssa.BasicBlock, depth
 					if success {
 						if isIface {
 							res = xv
+						} else if xv.C != nil {
+							res = aval{K: aConst, C: xv.C} // an interface holding a known constant
 						} else {
 							res = aval{K: aConcrete, Tag: x.AssertedType}
 						}
